@@ -74,10 +74,16 @@ def _build(case):
     if cfg["kind"] == "single":
         return SubtomogramLoader(wrap(tomos[0]), Molecules(pos, features=feats), order=1, scale=1.0, output_shape=BOX)
     b = BatchLoader(order=1, scale=1.0, output_shape=BOX)
-    for m in (0, 1):
+    # registration history: explicit ids 0, 1; or (odd seeds) tomogram 1 under the explicit id 1 first and tomogram 0 with an
+    # AUTOMATIC id afterwards, so that the registry is not 0..n-1 when the automatic id is chosen
+    gap = cfg["seed"] % 2 == 1
+    for m in ((1, 0) if gap else (0, 1)):
         idx = [i for i in range(n) if img_of[i] == m]
         if idx:
-            b.add_tomogram(wrap(tomos[m]), Molecules(pos[idx], features=feats[idx]), image_id=m)
+            if gap and m == 0:
+                b.add_tomogram(wrap(tomos[m]), Molecules(pos[idx], features=feats[idx]))
+            else:
+                b.add_tomogram(wrap(tomos[m]), Molecules(pos[idx], features=feats[idx]), image_id=m)
     return b
 
 
@@ -87,7 +93,15 @@ def replay(case) -> dict:
     ev = []
     base = dict(n_set=cfg["n_set"], seed=cfg["seed"])
     real = loader.asnumpy()
-    subs = [_onehot(s) for s in real]
+    try:
+        subs = [_onehot(s) for s in real]
+    except RuntimeError as e:
+        # the tomograms are planted by the harness: one weighted voxel per molecule inside its own box.  A loaded sub-volume
+        # that is not such a vector was cut from the wrong place or the wrong tomogram.
+        return dict(events=[], planted_mismatch=str(e))
+    planted = sorted((s["v"], s["w"]) for s in case["subs"])
+    if cfg["kind"] != "mock" and sorted((s["v"], s["w"]) for s in subs) != planted:
+        return dict(events=[], planted_mismatch=f"loaded markers {sorted((s['v'], s['w']) for s in subs)} != planted {planted}")
     keys = [int(x) for x in loader.molecules.features["k"].to_list()]
 
     def event(op, fn):
@@ -137,6 +151,9 @@ def run(rep: engine.Report, tier: str, seed: int):
     for c, r in zip(sel, results):
         if "machinery_error" in r:
             rep.machinery_error(r["machinery_error"])
+        elif r.get("planted_mismatch"):
+            rep.record(dict(cfg=c["cfg"], subs=c["subs"]), [dict(clause="LoadedSubvolumesNotThePlanted", op="asnumpy", n=c["cfg"]["n"], kind=c["cfg"]["kind"],
+                                                                 error=r["planted_mismatch"][:160], case=c)], nontrivial_key=("planted", c["cfg"], c["subs"]))
         else:
             events.extend(r["events"])
     res, verdict = engine.validate_trace("Trace_Avg", events, tag="avg")
@@ -153,7 +170,7 @@ def run(rep: engine.Report, tier: str, seed: int):
     rep.exhaustive = len(sel) == len(cases)
     rep.rule = (
         "TLC enumerates molecule counts 1..6 x single/batch/mock x distinct/coinciding markers x 3 group-key patterns x "
-        "numpy/2 dask chunkings x n_set {1,2} x seeds {0,1,7}, proves the split law over all bipartitions and that the "
+        "numpy/2 dask chunkings x n_set {1,2} x seeds {0,1,7} (odd seeds register the batch tomograms out of order with an automatic id), proves the split law over all bipartitions and that the "
         f"acceptor admits exactly the permitted splits; {len(cases)} cases, {len(sel)} run on real loaders; events "
         "(average, average_split twice, group average, group average_split) are judged by TLC in exact rationals"
     )
@@ -162,6 +179,10 @@ def run(rep: engine.Report, tier: str, seed: int):
 
 def replay_file(path: str) -> int:
     v = json.loads(open(path).read())
+    if "case" in v and "event" not in v:
+        r = replay(v["case"])
+        print(json.dumps(dict(planted_mismatch=r.get("planted_mismatch", "")), indent=1))
+        return 1 if r.get("planted_mismatch") else 0
     _, verdict = engine.validate_trace("Trace_Avg", [v["event"]], tag="replay")
     print(json.dumps(verdict))
     return 1 if verdict["bad"] else 0
